@@ -672,10 +672,22 @@ fn run_sync_mt(tape: &mut Tape, nthreads: usize, maxlen: usize, verbose: bool) -
         let stuck: Vec<usize> = blocked.iter().copied().filter(|b| *b != 0).collect();
         if !stuck.is_empty() && blocked.contains(&0) {
             let pend: Vec<u32> = begun.iter().filter(|b| !sent.iter().any(|s| s.1 == b.1)).map(|b| b.1).collect();
+            // the one schedule shape in which this is the recorded finding D11: the ping written by
+            // the failed try_send was drained by the loop before the sender parked
+            let mut drained_before_park = true;
+            for &t in &stuck {
+                let park = trace.iter().rposition(|e| *e == (t as u8, "parked"));
+                let enq = park.and_then(|p| trace[..p].iter().rposition(|e| *e == (t as u8, "chan.try_enqueue")));
+                let ok = match (enq, park) {
+                    (Some(a), Some(b)) => trace[a..b].iter().any(|e| *e == (0u8, "ping.drain")) && trace[a..b].iter().any(|e| *e == (t as u8, "ping.write")),
+                    _ => false,
+                };
+                drained_before_park &= ok;
+            }
             out.violations.push(viol(
                 &["C04"],
                 "blocking-send-deadlock",
-                &[("bound", bound.to_string())],
+                &[("bound", bound.to_string()), ("full_ping_drained_before_park", drained_before_park.to_string())],
                 format!("sender thread(s) {stuck:?} are parked in a blocking send (values {pend:?}) while the loop is blocked waiting for events: nobody will ever wake the other (bound {bound})"),
             ));
         } else {
@@ -728,6 +740,7 @@ struct FlagFuture {
     polls: Arc<Mutex<Vec<(u64, std::thread::ThreadId)>>>,
     drops: Arc<Mutex<Vec<std::thread::ThreadId>>>,
     id: u32,
+    self_wake_once: AtomicBool,
 }
 
 impl std::future::Future for FlagFuture {
@@ -738,6 +751,14 @@ impl std::future::Future for FlagFuture {
             std::task::Poll::Ready(self.id)
         } else {
             *self.waker_slot.lock().unwrap() = Some(cx.waker().clone());
+            if self.self_wake_once.swap(false, Ordering::SeqCst) {
+                // a yield_now-style future: wakes itself from inside its own poll
+                self.flag.store(true, Ordering::SeqCst);
+                cx.waker().wake_by_ref();
+            }
+            // a point inside the poll, after the flag was found unset and the waker was parked:
+            // another thread may set the flag and wake right here, *during* the poll
+            sched::point("fut.pending");
             std::task::Poll::Pending
         }
     }
@@ -825,6 +846,7 @@ fn run_exec_mt(tape: &mut Tape, nthreads: usize, maxlen: usize, verbose: bool) -
                 polls: t.polls.clone(),
                 drops: t.drops.clone(),
                 id: i as u32 + 1,
+                self_wake_once: AtomicBool::new(false),
             })
             .expect("schedule");
         tasks.push(t);
@@ -982,6 +1004,7 @@ fn run_exec_mt(tape: &mut Tape, nthreads: usize, maxlen: usize, verbose: bool) -
             polls: Arc::new(Mutex::new(vec![])),
             drops: Arc::new(Mutex::new(vec![])),
             id: 99,
+            self_wake_once: AtomicBool::new(false),
         });
         if r.is_ok() {
             out.violations.push(viol(&["C10"], "schedule-after-destroy", &[], "schedule() succeeded after the executor was dropped".into()));
@@ -1018,12 +1041,12 @@ fn run_signal(tape: &mut Tape, which: &str, verbose: bool) -> Outcome {
     match which {
         // thread B calls wakeup() at any point; the loop's single dispatch(None) must return
         "wakeup" => {
-            let variant = choose_free(3); // number of wakeups - 1 ... 0: one, 1: two, 2: wakeup before loop starts waiting twice
+            let variant = choose_free(4); // 0: one wakeup, one wait; 1: two wakeups, one wait; 2: one wakeup, two waits; 3: two wakeups, two waits
             out.decoded.push(format!("wakeup variant {variant}"));
             let lg = log.clone();
             let sig = signal.clone();
             joins.push(sched::spawn(1, move || {
-                for _ in 0..(if variant == 1 { 2 } else { 1 }) {
+                for _ in 0..(if variant == 1 || variant == 3 { 2 } else { 1 }) {
                     sched::point("op");
                     lg.lock().unwrap().push((stamp(), "wakeup.begin"));
                     sig.wakeup();
@@ -1031,7 +1054,16 @@ fn run_signal(tape: &mut Tape, which: &str, verbose: bool) -> Outcome {
                 }
             }));
             let mut returned = 0u32;
-            let want = if variant == 2 { 2 } else { 1 };
+            let want = if variant >= 2 { 2 } else { 1 };
+            {
+                // stamp the moment each wait returns
+                let lg = log.clone();
+                sched::set_arrival_monitor(Box::new(move |tid, label| {
+                    if tid == 0 && label == "wait.exit" {
+                        lg.lock().unwrap().push((stamp(), "wait.exit"));
+                    }
+                }));
+            }
             for _ in 0..want {
                 if sched::is_over() {
                     break;
@@ -1065,6 +1097,23 @@ fn run_signal(tape: &mut Tape, which: &str, verbose: bool) -> Outcome {
                     &[("variant", variant.to_string())],
                     format!("wakeup() returned {wakeups}x but dispatch(None) never returned (loop blocked={blocked:?}); log={l:?}"),
                 ));
+            }
+            if variant == 3 {
+                // a wakeup issued when no wait is in progress makes the *next* wait return: if the
+                // second wakeup began after the first wait had returned, the second dispatch returns
+                let first_exit = l.iter().find(|e| e.1 == "wait.exit").map(|e| e.0);
+                let begins: Vec<u64> = l.iter().filter(|e| e.1 == "wakeup.begin").map(|e| e.0).collect();
+                let ends: Vec<u64> = l.iter().filter(|e| e.1 == "wakeup.end").map(|e| e.0).collect();
+                if let (Some(x), Some(&b2), true) = (first_exit, begins.get(1), ends.len() == 2) {
+                    if b2 > x && returned < 2 {
+                        out.violations.push(viol(
+                            &["C11"],
+                            "lost-wakeup",
+                            &[("variant", "3".into())],
+                            format!("the second wakeup() began (stamp {b2}) after the first wait had returned (stamp {x}) and completed, but the next dispatch(None) never returned; log={l:?}"),
+                        ));
+                    }
+                }
             }
             if variant == 2 && returned == 2 {
                 out.violations.push(viol(&["C11", "C12"], "spurious-return", &[], "a single wakeup() made two consecutive dispatch(None) calls return".into()));
@@ -1199,7 +1248,7 @@ fn run_signal(tape: &mut Tape, which: &str, verbose: bool) -> Outcome {
         }
         // block_on a future pending on a flag; B sets the flag and wakes, possibly racing stop
         _ => {
-            let variant = choose_free(4); // 0: F,W  1: W,F,W  2: F,W racing stop+wakeup  3: stop+wakeup only
+            let variant = choose_free(5); // 0: F,W  1: W,F,W  2: F,W racing stop+wakeup  3: stop+wakeup only  4: the future wakes itself inside its first poll
             out.decoded.push(format!("block_on variant {variant}"));
             let flag = Arc::new(AtomicBool::new(false));
             let waker: Arc<Mutex<Option<std::task::Waker>>> = Arc::new(Mutex::new(None));
@@ -1212,6 +1261,7 @@ fn run_signal(tape: &mut Tape, which: &str, verbose: bool) -> Outcome {
                 polls: polls.clone(),
                 drops: drops.clone(),
                 id: 7,
+                self_wake_once: AtomicBool::new(variant == 4),
             };
             let fut = {
                 let fp = first_polled.clone();
@@ -1258,6 +1308,7 @@ fn run_signal(tape: &mut Tape, which: &str, verbose: bool) -> Outcome {
                         sched::point("op");
                         do_wake(&lg);
                     }
+                    4 => {}
                     2 => {
                         sched::point("op");
                         fl.store(true, Ordering::SeqCst);
@@ -1313,7 +1364,8 @@ fn run_signal(tape: &mut Tape, which: &str, verbose: bool) -> Outcome {
                 Err(e) => err = Some(format!("{e}")),
                 Ok(Some(v)) if returned => {
                     // Some only if the future was polled to Ready: a poll after the flag was set
-                    let ready_poll = flag_at.map(|f| p.iter().any(|x| x.0 > f)).unwrap_or(false);
+                    // (variant 4 sets its own flag during the first poll: the second poll is the ready one)
+                    let ready_poll = if variant == 4 { p.len() >= 2 } else { flag_at.map(|f| p.iter().any(|x| x.0 > f)).unwrap_or(false) };
                     if *v != 7 || !ready_poll {
                         out.violations.push(viol(&["C11"], "block_on-some-without-ready", &[], format!("block_on returned Some({v}) but no poll after the flag was set; log={l:?}")));
                     }
@@ -1348,7 +1400,7 @@ fn run_signal(tape: &mut Tape, which: &str, verbose: bool) -> Outcome {
             }
             if ret_at.is_none() && iters <= 12 {
                 // not returned at the end of the execution: it must be because nothing asked for it
-                let asked = (flag_at.is_some() && !wake_ends.is_empty()) || l.iter().any(|e| e.1 == "stopwake.end");
+                let asked = (flag_at.is_some() && !wake_ends.is_empty()) || l.iter().any(|e| e.1 == "stopwake.end") || variant == 4;
                 if asked {
                     out.violations.push(viol(
                         &["C11"],
